@@ -59,3 +59,12 @@ add("C10", "exploration",
 text("C10",
      "seeded exploration of attacker datagram sequences against a live server and live clients in 5 server configurations (single certificate, virtual hosts with and without fallback, hidden with one and with several certificates): random byte strings with biased lengths, truncations/extensions and single-field mutations of every valid message type captured from the run's own honest traffic, datagrams copying type and session id of live sessions with short or arbitrary remainder, and unauthenticated handshake prefixes produced by real client code with adversarial server names (empty, nil, glob metacharacters, 252 bytes, every and unknown name types) and right/wrong KEM keys, from third and spoofed addresses, interleaved with an honest handshake in flight; oracle: no panic in any goroutine (process-level), sessions established before still deliver probes both ways, a fresh honest handshake and probe succeed afterwards",
      TB + "; a panic anywhere in the process is attributed to the run that was executing", "deterministic simulation with fault injection (seeded adversarial-input and schedule search, liveness probes)", "DESIGN.md 4 C10")
+
+add("C11", "exploration",
+    [{"name": "byzantine-frames", "quick_s": 25, "thorough_s": 600}, {"name": "byzantine-bytes", "quick_s": 20, "thorough_s": 400}],
+    real=["tubes (Muxer, Reliable, Unreliable, sender, receiver, frame decoding)", "userauth.GetInitMsg", "codex.GetCmd / HandleSize", "portforwarding.readPacket", "authgrants message readers", "common.ReadString"],
+    stub=["transport session under the muxers (simulated MsgConn pair; Byzantine frames are injected as datagrams from the authenticated peer's address)"])
+text("C11",
+     "two seeded scenario families: (1) a Byzantine authenticated peer injects raw frames (every flag combination, any tube id except the unrelated tube, length fields inconsistent with the datagram incl. 65523/65524/65535, acknowledgement and frame numbers before/at/after anything sent and around 2^31/2^32, both header layouts, datagrams shorter than a header) while an unrelated reliable tube transfers data in both directions - oracle: no panic, the unrelated transfer completes intact, Muxer.Stop returns within 5 simulated minutes; (2) the peer opens a tube of each application type and writes random, truncated, mutated and extreme-length-prefix byte strings in random fragments into the real reader of that type (10 readers) then closes or vanishes - oracle: no panic, the reader returns within 10 simulated minutes after the stream ends (or when the local muxer stops), bytes allocated while it runs <= 8 MiB + 64 x bytes received",
+     TB + "; allocation is measured with runtime.MemStats.TotalAlloc around the reader (single P, concurrent muxer goroutines included in the slack); workers run under RLIMIT_AS 10 GiB",
+     "deterministic simulation with fault injection (Byzantine-peer input search, liveness and allocation oracles)", "DESIGN.md 4 C11")
